@@ -7,8 +7,9 @@ from .. import nodegen
 
 ID = "C11"
 SUITES = ["range", "table", "node"]
-LEAN_MODULES = ["VpnCloud.Proofs.C11"]
-THEOREMS = ["VpnCloud.Proofs.C11." + n for n in ("matches_iff_prefix", "no_u8_overflow", "lookup_spec", "lookup_most_specific", "cache_lifetime")]
+LEAN_MODULES = ["VpnCloud.Proofs.C11", "VpnCloud.Proofs.C11Node"]
+THEOREMS = ["VpnCloud.Proofs.C11." + n for n in ("matches_iff_prefix", "no_u8_overflow", "lookup_spec", "lookup_most_specific", "cache_lifetime")] + [
+            "VpnCloud.Proofs.C11Node.unknown_dest_dropped", "VpnCloud.Proofs.C11Node.unknown_dest_flooded"]
 BATCH = 200
 SEARCH_BUDGET_S = 300
 RULE = ("suite range: `match base/prefix addr` over the 8-bit universe (exhaustive in thorough), a 16-bit universe and random "
